@@ -418,6 +418,22 @@ func OpenReader(path string) (*Reader, error) {
 	return reader, nil
 }
 
+// seekIndexToBlockForKey positions an index block iterator on the entry of the
+// data block that may contain key. The index stores the first key of every
+// block, so that is the last entry whose key is <= key, or the first entry if
+// key sorts before every key in the table.
+func seekIndexToBlockForKey(indexIter *block.Iterator, key []byte) {
+	indexIter.SeekToFirst()
+	for indexIter.Valid() {
+		candidate := *indexIter
+		if !indexIter.Next() || bytes.Compare(indexIter.Key(), key) > 0 {
+			// No later block can contain key: step back to the candidate
+			*indexIter = candidate
+			return
+		}
+	}
+}
+
 // FindBlockForKey finds the block that might contain the given key
 func (r *Reader) FindBlockForKey(key []byte) ([]BlockLocator, error) {
 	r.mu.RLock()
@@ -426,17 +442,11 @@ func (r *Reader) FindBlockForKey(key []byte) ([]BlockLocator, error) {
 	var blocks []BlockLocator
 	seenBlocks := make(map[uint64]bool)
 
-	// First try binary search for efficiency - find the first block
-	// where the first key is >= our target key
+	// Find the last block whose first key is <= our target key
 	indexIter := r.indexBlock.Iterator()
-	indexIter.Seek(key)
+	seekIndexToBlockForKey(indexIter, key)
 
-	// If the seek fails, start from beginning to check all blocks
-	if !indexIter.Valid() {
-		indexIter.SeekToFirst()
-	}
-
-	// Process all potential blocks (starting from the one found by Seek)
+	// Process all potential blocks (starting from the one found above)
 	for ; indexIter.Valid(); indexIter.Next() {
 		locator, err := ParseBlockLocator(indexIter.Key(), indexIter.Value())
 		if err != nil {
